@@ -18,3 +18,7 @@ pub use strum::IntoEnumIterator as IterableEnum;
 extern crate alloc;
 
 pub type Result<T> = core::result::Result<T, error::Error>;
+
+#[cfg(kani)]
+#[path = "/verif/hooks/core/root.rs"]
+mod verif_hooks;
